@@ -993,7 +993,7 @@ c_status_t MMUnflattenMessage(MMessage * msg, const void * inBuf, uint32 inputBu
                            eLeft -= (itemSize + sizeof(uint32));
                            memcpy(&bufs[j]->bytes, &buffer[eOffset], itemSize);
                            eOffset += itemSize;
-                           ok = MTrue;
+                           ok = ((tc != B_STRING_TYPE)||((itemSize > 0)&&((&bufs[j]->bytes)[itemSize-1] == '\0'))) ? MTrue : MFalse;  /* string items get handed out as C strings, so they must be NUL-terminated */
                         }
                      }
                      if (ok == MFalse)
